@@ -151,6 +151,8 @@ def opsSolver (op : String) (ins outs : List String) : Option String :=
     match Verdict.findCert eqs e u vars 5 with
     | some k => pure s!"ok solution {if square then "square" else "under-constrained"} exactly-one-zero-certified shrink={k}"
     | none =>
+    if !square && Verdict.certifiedSplit eqs e u vars 3 then
+      pure "ok solution under-constrained exactly-one-zero-certified parameter-ranges-subdivided" else
     let uniq := Box.subset e u && Newton.uniqueCertVars eqs u vars
     let exKnown := zs.any fun p => Verdict.ratZero eqs p && Verdict.ratIn p e
     let tagU := if uniq then "uniqueness-certified" else "uniqueness-uncertified"
